@@ -290,6 +290,14 @@ def run(ctx, scratch):
                     init=init, force_bipartite=fb)
         lit = (wmat_lit(nrow, ncol, triples), seeds_lit(values), seeds_lit(values_row), seeds_lit(values_col),
                copt(init, lambda t: cq(Fraction(t))), cbool(fb))
+        if not malformed and rng.random() < 0.2:
+            # the same fit on an estimator constructed with other parameters and re-parameterised before the fit
+            other_iter = rng.choice([x for x in N_ITERS if x != n_iter] or [n_iter + 1])
+            args['constructed'] = dict(n_iter=other_iter)
+            if algo == 'diffusion':
+                args['constructed']['damping_factor'] = rng.choice([d for d, _ in DAMPINGS if d != dfl] or [dfl])
+            args['reparam'] = rng.choice(['set_params', 'attribute'])
+            fam = fam + '_reparam'
         if algo == 'diffusion':
             args['damping'] = dfl
             expr = 'fit_z (diffusion_fit %d %s %s %s %s %s %s %s)' % ((n_iter, cq(dq)) + lit)
